@@ -444,11 +444,13 @@ pub fn drive_big(a: &Args, out: &mut Out) {
 
 /// Exhaustive small scope, one representative per relabelling class: every pair (old, new) with
 /// both lengths <= maxlen over at most `alpha` symbols such that old ++ new is a restricted-growth
-/// string (symbols are introduced in the order 0, 1, 2, ...).  Myers at maxlen, Patience and LCS
-/// at maxlen - 1; whole slices, no deadline.
+/// string (symbols are introduced in the order 0, 1, 2, ...), for the algorithms named by --algs;
+/// whole slices and (up to maxlen - 1) a padded sub-range, no deadline.
 pub fn drive_exh(a: &Args, out: &mut Out) {
     let maxlen = a.num("maxlen", if a.thorough() { 7 } else { 6 }) as usize;
     let alpha = a.num("alpha", 3) as u32;
+    let algs = a.get("algs", "myers,lcs,patience");
+    let others = a.num("others", maxlen.min(6) as u64) as usize; // bound for Patience and LCS
     // all restricted-growth strings of length <= 2 * maxlen, cut at every admissible position
     fn rec_gen(cur: &mut Vec<u32>, maxsym: u32, alpha: u32, maxtotal: usize, f: &mut dyn FnMut(&[u32])) {
         f(cur);
@@ -469,7 +471,7 @@ pub fn drive_exh(a: &Args, out: &mut Out) {
         for cut in lo..=hi {
             let (x, y) = (&st[..cut], &st[cut..]);
             for alg in ALGS {
-                if alg != Algorithm::Myers && (x.len() >= maxlen || y.len() >= maxlen) {
+                if !algs.contains(alg_name(alg)) || (alg != Algorithm::Myers && x.len().max(y.len()) > others) {
                     continue;
                 }
                 let c = HCase::simple(alg, x, y);
